@@ -12,6 +12,7 @@ configuration, hence whether the call must raise, may raise, or must return.
 import copy
 import itertools
 import json
+import os
 
 from mc import values as V
 
@@ -27,9 +28,11 @@ ASSUMPTIONS = ["an explicit None/empty for a required field inside a disabled (s
 LOG = []
 
 
-def build():
+def build(env=False):
     import cincoconfig as cc
-    s = cc.Schema()
+    # env: the schema sits under an environment prefix and every variable a field is bound to exists but is empty
+    # (an empty variable supplies nothing, shadows nothing and exempts nothing from validation)
+    s = cc.Schema(env="C11E") if env else cc.Schema()
     s.flag = cc.FeatureFlagField(default=True)
     s.rs = cc.StringField(required=True)
     s.ri = cc.IntField(required=True, default=5)
@@ -129,6 +132,10 @@ def build():
         if value is not None and value % 2:
             raise ArithmeticError("must be even")
         return value
+    if env:
+        from mc import cfgworld as W
+        for name in W.env_names(s):
+            os.environ[name] = ""
     return s
 
 
@@ -461,7 +468,7 @@ def run_job(job, ctx):
     sides = side_inputs(tier)
     routes = bounds(tier)["routes"]
     only = job.get("only")
-    schema = build()
+    schema = build(env=int(job["name"].split("/")[1]) % 2 == 1)       # every other flag assignment under bound, empty variables
     n = 0
     LK = ("rs", "ri", "rl", "rd", "r", "re", "rle")
     for cn, combo in enumerate(itertools.product(*[la[k] for k in LK])):
